@@ -159,14 +159,14 @@ func Targets(full bool) []Target {
 	}
 	// ---------------------------------------------------------------- hybrid: HPKE (7 KEMs), ECIES
 	for _, c := range []struct {
-		kem      hpke.KEMID
-		kn       string
-		kdf      hpke.KDFID
-		a        hpke.AEADID
-		vn       string
-		v        hpke.Variant
-		cost     int
-		big      bool
+		kem  hpke.KEMID
+		kn   string
+		kdf  hpke.KDFID
+		a    hpke.AEADID
+		vn   string
+		v    hpke.Variant
+		cost int
+		big  bool
 	}{
 		{hpke.DHKEM_X25519_HKDF_SHA256, "X25519", hpke.HKDFSHA256, hpke.AES128GCM, "TINK", hpke.VariantTink, 0, false},
 		{hpke.DHKEM_X25519_HKDF_SHA256, "X25519", hpke.HKDFSHA256, hpke.ChaCha20Poly1305, "NO_PREFIX", hpke.VariantNoPrefix, 0, false},
@@ -189,17 +189,17 @@ func Targets(full bool) []Target {
 	demCTR256 := kp(aesctrhmac.NewParameters(aesctrhmac.ParametersOpts{AESKeySizeInBytes: 32, HMACKeySizeInBytes: 32, IVSizeInBytes: 16,
 		HashType: aesctrhmac.SHA256, TagSizeInBytes: 32, Variant: aesctrhmac.VariantNoPrefix}))
 	for _, c := range []struct {
-		curve  ecies.CurveType
-		cn     string
-		h      ecies.HashType
-		pf     ecies.PointFormat
-		fn     string
-		dem    key.Parameters
-		dn     string
-		salt   []byte
-		vn     string
-		v      ecies.Variant
-		cost   int
+		curve ecies.CurveType
+		cn    string
+		h     ecies.HashType
+		pf    ecies.PointFormat
+		fn    string
+		dem   key.Parameters
+		dn    string
+		salt  []byte
+		vn    string
+		v     ecies.Variant
+		cost  int
 	}{
 		{ecies.NISTP256, "P256", ecies.SHA256, ecies.UncompressedPointFormat, "UNCOMPRESSED", demGCM128, "AES128GCM", nil, "TINK", ecies.VariantTink, 0},
 		{ecies.NISTP256, "P256", ecies.SHA512, ecies.CompressedPointFormat, "COMPRESSED", demGCM256, "AES256GCM", []byte("salt"), "NO_PREFIX", ecies.VariantNoPrefix, 0},
